@@ -390,6 +390,10 @@ func ExecRun(t *testing.T, prop string, st Stratum, stIdx int, tape *simrt.Tape,
 			continue
 		}
 		pp := panicProp(p.Stack)
+		if pp == "C20" && prop != "" && prop != "replay" {
+			// a library panic that no specific property claims belongs to the property whose workload provoked it
+			pp = prop
+		}
 		if r.PanicPropOverride != "" {
 			pp = r.PanicPropOverride
 		}
